@@ -104,12 +104,18 @@ def level_recipe(triple, rng, nmods=None, module_override=None, ovh_override=Non
             mods.append(m)
         if any(m is None for m in mods):
             continue
+        # a destination vector whose backbone (the part the kit's hand-written structure does not cover) was never domesticated:
+        # one more site of the vector's own enzyme there, either strand
+        vloose = False
+        if rng.random() < 0.2 and not module_override:
+            vec = vec + gen.rnd(rng.randint(2, 5), rng, "AT") + rng.choice([tsite, dna.rc(tsite)]) + gen.rnd(rng.randint(2, 5), rng, "AT")
+            vloose = True
         # curated inserts: a reference list and a handful of short cited features (some of them fall inside the insert, so the
         # product carries citations and a reference list of its own into the next level)
         cited = rng.random() < 0.4
         # the inserts of a level are often products of the level below, which all carry the default id unless one was asked for
         same_id = rng.choice(["assembly", "<unknown id>"]) if (len(mods) >= 2 and rng.random() < 0.35) else None
-        return {"fn": "level", "triple": list(triple), "enz": classes.enz_spec(this), "nenz": classes.enz_spec(nxt),
+        return {"fn": "level", "vloose": vloose, "triple": list(triple), "enz": classes.enz_spec(this), "nenz": classes.enz_spec(nxt),
                 "vcls": vspec, "mcls": [mspec] * len(mods), "ncls": nspec,
                 "vector": {"id": "vec", "seq": gen.rotate(vec, rng.randrange(len(vec)))},
                 "modules": [dict(module_override) if (isinstance(module_override, dict) and i == 0) else
@@ -161,7 +167,7 @@ def exec_level(r):
     # the level classes accept exactly the decomposable plasmids generated here, so every assembly clause applies
     evs = exec_assembly(dict(r, fn="assemble", assume_generic=True))
     asm = evs[0]
-    ev = {"ev": "NextLevel", "enz": asm["enz"], "vec": asm["vec"], "mods": asm["mods"], "out": asm["out"],
+    ev = {"ev": "NextLevel", "enz": asm["enz"], "vec": asm["vec"], "mods": asm["mods"], "out": asm["out"], "vloose": bool(r.get("vloose")),
           "nenz": enzmod.enz_json(classes.cutter_of(r["nenz"])),
           "next": {"cls": {}, "res": {"valid": False, "exc": "", "up": [], "down": [], "tgt": [], "ph": [], "qexc": [], "qinv": True}},
           "second": {"has": False, "out": {}}}
